@@ -2,5 +2,5 @@
 from checks import seqcheck
 
 def main(tier, seed, replay):
-    return seqcheck.main("C03", "Properties/C03.v", tier, seed, replay, scenarios=['crash','boundary','crash','faults','bigcrash','bigcrash@real','crash@real'],
+    return seqcheck.main("C03", "Properties/C03.v", tier, seed, replay, scenarios=['crash','boundary','crash','faults','bigcrash','bigcrash@real','crash@real','hugecrash'],
                          own_prefixes=("C03", "C02", "C04 at-publish: missing"))
